@@ -52,7 +52,8 @@ def sameState (a b : String) : Bool :=
              | some x, some y => x == y
              | _, _ => false)
 
-def propsOf (op : String) : List String := if op == "cache" then ["C13"] else ["C04"]
+def propsOf (op : String) : List String :=
+  if op.startsWith "cache" then ["C13"] else if op.endsWith "wide" then ["C04", "C05"] else ["C04"]
 
 def fsLine (st : FsRun) (lineNo : Nat) (line : String) : Except String (FsRun × List String) :=
   match line.splitOn "\t" with
@@ -84,9 +85,10 @@ def fsLine (st : FsRun) (lineNo : Nat) (line : String) : Except String (FsRun ×
   | "crash" :: rest =>
     let fs := fields rest
     let get := fun k => (lookup fs k).getD ""
-    let ok := get "disk" == get "pre" || get "disk" == get "post"
+    let ok := (get "disk" == get "pre" || get "disk" == get "post") &&
+              (get "followup" == "-" || get "followup" == "ok" || get "followup" == "")
     let o1 := if ok then [] else
-      (propsOf (get "op")).map fun p => s!"PROPFAIL {p} crash_all_or_nothing line={lineNo} op={get "op"} idx={get "idx"} call={get "call"} disk={(get "disk").take 200} pre={(get "pre").take 100} post={(get "post").take 100}"
+      (propsOf (get "op")).map fun p => s!"PROPFAIL {p} crash_all_or_nothing line={lineNo} op={get "op"} idx={get "idx"} call={get "call"} disk={(get "disk").take 200} pre={(get "pre").take 100} post={(get "post").take 100} followup={(get "followup").take 80}"
     -- model: new contents iff the rename has executed (C04.crash_all_or_nothing)
     let want := if get "after" == "1" then get "post" else get "pre"
     let o2 := if get "disk" == want then [] else [s!"DIVERGE crash_point line={lineNo} op={get "op"} idx={get "idx"} call={get "call"} after={get "after"}"]
